@@ -200,6 +200,9 @@ def gen_c17(tier, R):
         v = _m.ldexp(1.0, e2)
         shown += [v, _m.nextafter(v, 0.0), _m.nextafter(v, _m.inf)]
     shown += [0.1 + 0.2, 0.1 + 0.7, 1.1 * 1.1, 4.35 * 100, 1 / 3, 2 / 3, 1e23, 8.41e21, 9007199254740993.0, 5e-324, 1.7976931348623157e308, 2.2250738585072014e-308, 0.5, 1.5, 2.5, 1e15 + 0.5, 123456789012345680.0]
+    # exact ties between the two nearest 17-digit decimals: a quarter or three quarters at the 2^50 scale (16 integer digits + 1), an odd multiple of 1/8 at the 2^47 scale
+    shown += [float(R.randint(2**50, 2**51 - 1)) + R.choice([0.25, 0.75]) for _ in range(150 if tier == 'quick' else 20000)] + [1202996698280249.25, 1202996698280249.75]
+    shown += [float(R.randint(2**47, 2**48 - 1)) + R.choice([0.125, 0.375, 0.625, 0.875]) for _ in range(100 if tier == 'quick' else 20000)]
     shown += [struct.unpack('<d', struct.pack('<Q', R.getrandbits(63)))[0] for _ in range(300 if tier == 'quick' else 60000)]
     shown += [R.uniform(-1e6, 1e6) for _ in range(300 if tier == 'quick' else 60000)] + [float(R.randint(-10**17, 10**17)) for _ in range(100 if tier == 'quick' else 20000)]
     for v in shown:
@@ -516,14 +519,16 @@ def gen_composite_scripts(tier, R, off):
         k = R.random()
         if d == 0 or k < 0.35:
             return R.choice(arrs)
-        c = R.choice(["sort({a})", "unique({a})", "reverse({a})", "split({s}, ',')", "copy({a}, 0, {i})", "insert({a}, {n}, 0)", "({a} + {a})", "[{n}, {s}, {b}]", "split_csv({s})", "re_find({s}, 'a')"])
+        # (sort only over arrays of one kind: on arrays whose order is inconsistent - the recorded finding F15/F17 - the result depends on the sorting algorithm, and a computed array cannot be classified from the text)
+        c = R.choice(["sort({t})", "unique({a})", "reverse({a})", "split({s}, ',')", "copy({a}, 0, {i})", "insert({a}, {n}, 0)", "({a} + {a})", "[{n}, {s}, {b}]", "split_csv({s})", "re_find({s}, 'a')"])
         return fill(c, d)
 
     def fill(c, d):
         out = c
         while '{' in out:
             i = out.index('{'); j = out.index('}', i); key = out[i + 1:j]
-            rep = {'n': lambda: num_e(d - 1), 's': lambda: str_e(d - 1), 'b': lambda: bool_e(d - 1), 'a': lambda: arr_e(d - 1), 'i': lambda: R.choice(["0", "1", "2", "3"]),
+            rep = {'t': lambda: R.choice(["[3, 1, 2, 1]", "['b', 'a', 'c']", "[]", "[2.5, 10, 0.1]", "split('c,a,b', ',')", "[true, false, true]", "reverse([1, 2, 3])", "[length('ab'), 7, 0]"]),
+                   'n': lambda: num_e(d - 1), 's': lambda: str_e(d - 1), 'b': lambda: bool_e(d - 1), 'a': lambda: arr_e(d - 1), 'i': lambda: R.choice(["0", "1", "2", "3"]),
                    's10': lambda: R.choice(["'10'", "'3.5'", "'0'"]), 'a3': lambda: "[1, 2, 3]", 's3': lambda: "'abc'"}[key]()
             out = out[:i] + rep + out[j + 1:]
         return out
